@@ -297,7 +297,7 @@ def HParams.toParams (H : HParams κ ι π ν φ ω) : Params κ GroupV TemplV C
 
 structure HState (κ ι π ν : Type) where
   heap : Heap π ν
-  next : Ref
+  next : Nat
   tables : Dict κ Ref
   compiled : Nat → Dict (List Nat × κ) Ref
   objs : Dict (ObjKey ι) Ref
